@@ -67,8 +67,8 @@ Definition seg_to_Q (s : Seg FOps) : Seg QOps :=
 (* ---- tree case: id, cut points expected exact, qtMaxLevel, vertices, dumped tree, chains hint *)
 Definition tcase := (N * bool * N * list (float * float) * ftree * list (list fseg))%type.
 Definition tid (c : tcase) : N := let '(id, _, _, _, _, _) := c in id.
-(* (model rebuilds the dump, tolerant certificate, exact certificate) *)
-Definition tcheck (c : tcase) : bool * bool * bool :=
+(* (model rebuilds the dump, tolerant certificate, exact winding certificate, exact full certificate) *)
+Definition tcheck (c : tcase) : bool * bool * bool * bool :=
   let '(id, ex, maxlevel, verts, tree, chains) := c in
   let sf := segsF verts in
   let built := @mesh2d FOps (N.to_nat maxlevel) sf in
@@ -76,17 +76,21 @@ Definition tcheck (c : tcase) : bool * bool * bool :=
   let tq := @itree QOps fq tree in
   let cq := map (map (@iseg QOps fq)) chains in
   let tol := Qred (eps40 * tree_scale tree) in
+  let w0 := @winding_clipped_check QOps 0%Q tq sq cq in
   (tree_same built (@itree FOps fid tree),
    @well_clipped_check QOps tol tq sq cq,
-   @well_clipped_check QOps 0%Q tq sq cq).
+   w0, w0 && @box_check QOps 0%Q tq).
 Definition tok (c : tcase) : bool :=
   let '(id, ex, _, _, _, _) := c in
-  let '(same, certtol, cert0) := tcheck c in
-  same && certtol && (negb ex || cert0).
+  let '(same, certtol, w0, full0) := tcheck c in
+  same && certtol && (negb ex || w0).
 Definition mismatches_tree (cs : list tcase) : list N := map tid (filter (fun c => negb (tok c)) cs).
-(* information: trees on which the exact (tolerance 0) certificate does not hold *)
+(* information: trees on which the exact (tolerance 0) winding certificate does not hold *)
 Definition inexact_tree (cs : list tcase) : list N :=
-  map tid (filter (fun c => negb (snd (tcheck c))) cs).
+  map tid (filter (fun c => negb (snd (fst (tcheck c)))) cs).
+(* information: trees on which the exact full certificate holds *)
+Definition exact_full_tree (cs : list tcase) : list N :=
+  map tid (filter (fun c => snd (tcheck c)) cs).
 
 (* ---- eval case: vertices, dumped tree, points (id, run the Q spec, on the boundary, p, fast, slow) *)
 Definition epoint := (N * bool * bool * (float * float) * float * float)%type.
